@@ -12,6 +12,9 @@ harness/cmd/steps   builds real CallableSchemas with recording handlers / a coun
 import os, json, re
 from vlib import common
 
+SPECS = ["StepsMC", "StepsTrace"]
+PKGS = ["./cmd/steps"]
+
 STATEMENT_BITS = {
     "panic": "unknown step or signal IDs yield errors, never panics (and a call on valid IDs must reach its handler: "
              "'the only step data that run's signal handlers ever see' presupposes they run)",
